@@ -390,19 +390,34 @@ Qed.
 
 (* the imports given by a list of USE statements of M *)
 Definition imports_of (g : graph) (M : module) (A : module -> list (str * ent)) (us : list use_stmt) :=
-  flat_map (fun u => match find_module g (u_target u) with
+  flat_map (fun u => match used_module g M u with
                      | Some T => import_stmt M u (A T)
                      | None => []
                      end) us.
 Lemma spec_module_some g u T : spec_module g u = Some T -> find_module g (u_target u) = Some T.
 Proof. unfold spec_module. destruct (u_intrinsic u); [discriminate | auto]. Qed.
-(* outside the region of intrinsic-nature-ignored the module a statement designates is the one
-   find_used_modules finds *)
-Lemma imports_is g M A : nature_ok g M = true -> imports g M A = imports_of g M A (m_uses M).
+Lemma used_module_some g M u T : used_module g M u = Some T -> find_module g (u_target u) = Some T.
+Proof. unfold used_module. destruct (scope_intrinsic M (u_target u)); [discriminate | auto]. Qed.
+(* in a scope that keeps C1412 the module find_used_modules matches a statement with is the one
+   the statement designates *)
+Lemma used_is_spec g M u :
+  nature_legal_m g M = true -> In u (m_uses M) -> used_module g M u = spec_module g u.
 Proof.
-  unfold nature_ok. rewrite forallb_forall. intros H. unfold imports, imports_of.
-  apply flat_map_ext_in'. intros u Hu. unfold spec_module. specialize (H u Hu).
-  destruct (u_intrinsic u); auto. simpl in H. destruct (find_module g (u_target u)); [discriminate | reflexivity].
+  unfold nature_legal_m. rewrite forallb_forall. intros H Hu. unfold used_module, spec_module.
+  destruct (u_intrinsic u) eqn:Ei.
+  - assert (E : scope_intrinsic M (u_target u) = true).
+    { unfold scope_intrinsic. apply existsb_exists. exists u. split; auto. now rewrite Ei, str_eqb_refl. }
+    now rewrite E.
+  - destruct (scope_intrinsic M (u_target u)) eqn:E; auto.
+    unfold scope_intrinsic in E. apply existsb_exists in E as (u' & Hu' & E').
+    apply andb_true_iff in E' as [Ei' Et]. specialize (H u' Hu'). rewrite Ei' in H. simpl in H.
+    rewrite forallb_forall in H. specialize (H u Hu). rewrite Et, Ei in H. simpl in H.
+    destruct (find_module g (u_target u)); [discriminate | reflexivity].
+Qed.
+Lemma imports_is g M A : nature_legal_m g M = true -> imports g M A = imports_of g M A (m_uses M).
+Proof.
+  intros H. unfold imports, imports_of. apply flat_map_ext_in'. intros u Hu.
+  now rewrite (used_is_spec g M u H Hu).
 Qed.
 
 Lemma fold_use_step g M (h : module -> tabs) (A : module -> list (str * ent)) :
@@ -410,7 +425,7 @@ Lemma fold_use_step g M (h : module -> tabs) (A : module -> list (str * ent)) :
   NoDup (map fst (m_access M)) ->
   forall us,
   (forall u, In u us -> In u (m_uses M)) ->
-  (forall u T, In u us -> find_module g (u_target u) = Some T ->
+  (forall u T, In u us -> used_module g M u = Some T ->
                NoDup (map fst (fst (h T))) /\ denotes (fst (h T)) (A T)) ->
   forall pub all Sp Sa,
   NoDup (map fst pub) -> denotes pub Sp -> denotes all Sa ->
@@ -425,7 +440,7 @@ Proof.
   - simpl. rewrite !app_nil_r. auto.
   - simpl fold_left. unfold use_step at 2.
     unfold imports_of in *. simpl flat_map in *.
-    destruct (find_module g (u_target u)) as [T|] eqn:Ef.
+    destruct (used_module g M u) as [T|] eqn:Ef.
     + destruct (Hh u T (or_introl eq_refl) Ef) as [NDt Dt].
       set (X := import_stmt M u (A T)) in *.
       assert (FX : functional X).
@@ -455,10 +470,10 @@ Proof.
 Qed.
 
 Lemma mstep_spec c g M (h : module -> tabs) (A : module -> list (str * ent)) :
-  nature_ok g M = true ->
+  nature_legal_m g M = true ->
   forallb (fun a => negb (declared M (fst a))) (m_access M) = true ->
   NoDup (map fst (m_access M)) ->
-  (forall u T, In u (m_uses M) -> find_module g (u_target u) = Some T ->
+  (forall u T, In u (m_uses M) -> used_module g M u = Some T ->
                NoDup (map fst (fst (h T))) /\ denotes (fst (h T)) (A T)) ->
   functional (own_scope c M ++ imports g M A) ->
   (forall ne, In ne (imports g M A) -> declared M (fst ne) = false) ->
@@ -548,25 +563,33 @@ Proof.
   { apply in_app_iff. right. apply in_flat_map. eauto. }
   specialize (H u Hin). apply negb_true_iff in H. now apply str_eqb_neq.
 Qed.
+Lemma in_scope_targets M u :
+  In u (m_uses M) -> scope_intrinsic M (u_target u) = false -> In (u_target u) (scope_targets M).
+Proof.
+  intros Hu E. unfold scope_targets. apply in_map. apply filter_In. split; auto. now rewrite E.
+Qed.
 Lemma target_in_deps g M u T :
   (forall u, In u (m_uses M) -> u_target u <> m_name M) ->
-  In u (m_uses M) -> find_module g (u_target u) = Some T ->
+  In u (m_uses M) -> used_module g M u = Some T ->
   In T g /\ In (m_name T) (deps g M).
 Proof.
-  intros Hs Hu Ef. apply find_module_some in Ef as [HT En]. split; auto.
+  intros Hs Hu Ef. unfold used_module in Ef. destruct (scope_intrinsic M (u_target u)) eqn:Ei; [discriminate|].
+  apply find_module_some in Ef as [HT En]. split; auto.
   unfold deps, resolved_targets. rewrite En. apply filter_In. split.
-  - apply filter_In. split; [apply in_app_iff; left; now apply in_map|]. apply str_in_In. rewrite <- En. now apply in_map.
+  - apply filter_In. split; [apply in_app_iff; left; now apply in_scope_targets|]. apply str_in_In. rewrite <- En. now apply in_map.
   - apply negb_true_iff. apply str_eqb_neq. auto.
 Qed.
 Lemma nested_target_in_deps g M S u T :
   In S (m_nested M) -> In u (s_uses S) -> u_target u <> m_name M ->
-  find_module g (u_target u) = Some T -> In T g /\ In (m_name T) (deps g M).
+  used_module g (as_module M S) u = Some T -> In T g /\ In (m_name T) (deps g M).
 Proof.
-  intros HS Hu Hne Ef. apply find_module_some in Ef as [HT En]. split; auto.
+  intros HS Hu Hne Ef. unfold used_module in Ef.
+  destruct (scope_intrinsic (as_module M S) (u_target u)) eqn:Ei; [discriminate|].
+  apply find_module_some in Ef as [HT En]. split; auto.
   unfold deps, resolved_targets. rewrite En. apply filter_In. split.
   - apply filter_In. split.
     + apply in_app_iff. right. unfold nested_targets. apply in_flat_map. exists S. split; auto.
-      now apply in_map.
+      now apply (in_scope_targets (as_module M S)).
     + apply str_in_In. rewrite <- En. now apply in_map.
   - apply negb_true_iff. apply str_eqb_neq. auto.
 Qed.
@@ -608,16 +631,17 @@ Lemma mstep_ext c g M h1 h2 p :
   mstep c g M h1 p = mstep c g M h2 p.
 Proof.
   intros Hs H. unfold mstep. apply fold_left_ext_in. intros u acc Hu. unfold use_step.
-  destruct (find_module g (u_target u)) as [T|] eqn:Ef; auto.
+  destruct (used_module g M u) as [T|] eqn:Ef; auto.
   destruct (target_in_deps g M u T Hs Hu Ef) as [HT Hd]. now rewrite (H T HT Hd).
 Qed.
 Lemma imports_ext g M A1 A2 :
+  nature_legal_m g M = true ->
   (forall u, In u (m_uses M) -> u_target u <> m_name M) ->
   (forall T, In T g -> In (m_name T) (deps g M) -> A1 T = A2 T) ->
   imports g M A1 = imports g M A2.
 Proof.
-  intros Hs H. unfold imports. apply flat_map_ext_in'. intros u Hu.
-  destruct (spec_module g u) as [T|] eqn:Ef; auto. apply spec_module_some in Ef.
+  intros Hn Hs H. unfold imports. apply flat_map_ext_in'. intros u Hu.
+  destruct (spec_module g u) as [T|] eqn:Ef; auto. rewrite <- (used_is_spec g M u Hn Hu) in Ef.
   destruct (target_in_deps g M u T Hs Hu Ef) as [HT Hd]. now rewrite (H T HT Hd).
 Qed.
 
@@ -637,16 +661,24 @@ Proof.
   apply (iter_stable g (fun f => mtab f c g) (fun M h => mstep c g M h (own_pub c M)) o) with (l1 := l1) (n := n) (l2 := l2); auto.
   intros M' h1 h2 HM' H. apply mstep_ext; auto. now apply no_self_use_M with (g := g).
 Qed.
+Lemma nature_legal_facts g : nature_legal g = true -> forall M, In M g ->
+  nature_legal_m g M = true /\ forall S, In S (m_nested M) -> nature_legal_m g (as_module M S) = true.
+Proof.
+  unfold nature_legal. rewrite forallb_forall. intros H M HM. specialize (H M HM).
+  apply andb_true_iff in H as [H1 H2]. split; auto. rewrite forallb_forall in H2. exact H2.
+Qed.
 Lemma accessible_n_stable c g o :
-  topo_b g o = true -> no_self_use g = true ->
+  topo_b g o = true -> no_self_use g = true -> nature_legal g = true ->
   forall l1 n l2 M, o = l1 ++ n :: l2 -> find_module g n = Some M ->
   forall f, S (length l1) <= f -> accessible_n f c g M = accessible_n (S (length l1)) c g M.
 Proof.
-  intros Ht Hs l1 n l2 M Eo Ef f Hf. apply topo_b_facts in Ht as (ND & _ & _ & TP).
+  intros Ht Hs Hn l1 n l2 M Eo Ef f Hf. apply topo_b_facts in Ht as (ND & _ & _ & TP).
   apply (iter_stable g (fun f => accessible_n f c g)
            (fun M A => own_public c M ++ filter (fun ne => reexported M (fst ne)) (imports g M A)) o)
     with (l1 := l1) (n := n) (l2 := l2); auto.
-  intros M' h1 h2 HM' H. f_equal. f_equal. apply imports_ext; auto. now apply no_self_use_M with (g := g).
+  intros M' h1 h2 HM' H. f_equal. f_equal. apply imports_ext; auto.
+  - now apply (nature_legal_facts g Hn M' HM').
+  - now apply no_self_use_M with (g := g).
 Qed.
 
 Lemma init_state_get c g M :
@@ -745,7 +777,7 @@ Lemma wf_graph_facts g :
     functional (scope_all g M) /\
     (forall c ne, In ne (imports g M (accessible_n (length g) c g)) -> declared M (fst ne) = false).
 Proof.
-  unfold wf_graph. rewrite !andb_true_iff. intros [[[ND H] HN] HS].
+  unfold wf_graph. rewrite !andb_true_iff. intros [[[[_ ND] H] HN] HS].
   apply nodup_b_NoDup in ND. rewrite forallb_forall in H, HS. split; auto.
   split.
   - unfold no_self_use. apply forallb_forall. intros M HM. rewrite forallb_app. apply andb_true_iff. split.
@@ -758,6 +790,8 @@ Proof.
     + intros c ne Hne. rewrite forallb_forall in H6. apply negb_true_iff. apply H6.
       apply in_flat_map. exists c. split; auto. destruct c; simpl; auto.
 Qed.
+Lemma wf_graph_nature g : wf_graph g = true -> nature_legal g = true.
+Proof. unfold wf_graph. rewrite !andb_true_iff. tauto. Qed.
 Lemma wf_graph_nested g M S :
   wf_graph g = true -> In M g -> In S (m_nested M) ->
   functional (flat_map (fun c => nested_imports c g M S) all_cls) /\
@@ -773,40 +807,33 @@ Lemma scope_in_scope_all c g M x : In x (scope c g M) -> In x (scope_all g M).
 Proof. intros H. apply in_flat_map. exists c. split; auto. destruct c; simpl; auto. Qed.
 
 Lemma imports_settled c g o :
-  topo_b g o = true -> no_self_use g = true ->
+  topo_b g o = true -> no_self_use g = true -> nature_legal g = true ->
   forall l1 n l2 M, o = l1 ++ n :: l2 -> find_module g n = Some M ->
   forall f, length l1 <= f ->
   imports g M (accessible_n f c g) = imports g M (accessible_n (length l1) c g).
 Proof.
-  intros Ht Hs l1 n l2 M Eo Ef f Hf.
+  intros Ht Hs Hn l1 n l2 M Eo Ef f Hf.
   pose proof Ht as Ht'. apply topo_b_facts in Ht' as (ND & _ & _ & TP).
   destruct (find_module_some _ _ _ Ef) as [HM _].
-  apply imports_ext; [now apply no_self_use_M with (g := g)|].
+  apply imports_ext; [now apply (nature_legal_facts g Hn M HM) | now apply no_self_use_M with (g := g)|].
   intros T HT Hd. destruct (TP l1 n l2 Eo) as (M' & Ef' & Hdeps).
   assert (M' = M) by congruence. subst M'. apply Hdeps in Hd. apply in_split in Hd as (a & b & El1).
   assert (Eo' : o = a ++ m_name T :: (b ++ n :: l2)) by (rewrite Eo, El1, <- app_assoc; reflexivity).
   assert (La : S (length a) <= length l1) by (rewrite El1, app_length; simpl; lia).
   pose proof (find_module_nodup g T ND HT) as EfT.
-  rewrite (accessible_n_stable c g o Ht Hs a (m_name T) _ T Eo' EfT f) by lia.
-  rewrite (accessible_n_stable c g o Ht Hs a (m_name T) _ T Eo' EfT (length l1)) by lia.
+  rewrite (accessible_n_stable c g o Ht Hs Hn a (m_name T) _ T Eo' EfT f) by lia.
+  rewrite (accessible_n_stable c g o Ht Hs Hn a (m_name T) _ T Eo' EfT (length l1)) by lia.
   reflexivity.
 Qed.
 
-Lemma nature_free_facts g : nature_free g = true -> forall M, In M g ->
-  nature_ok g M = true /\ forall S, In S (m_nested M) -> nature_ok g (as_module M S) = true.
-Proof.
-  unfold nature_free. rewrite forallb_forall. intros H M HM. specialize (H M HM).
-  apply andb_true_iff in H as [H1 H2]. split; auto. rewrite forallb_forall in H2. exact H2.
-Qed.
-
 Lemma mtab_spec c g o :
-  wf_graph g = true -> nature_free g = true -> topo_b g o = true ->
+  wf_graph g = true -> topo_b g o = true ->
   forall k l1 n l2 M, length l1 = k -> o = l1 ++ n :: l2 -> find_module g n = Some M ->
   denotes (fst (mtab (S k) c g M)) (accessible_n (S k) c g M)
   /\ denotes (snd (mtab (S k) c g M)) (own_scope c M ++ imports g M (accessible_n k c g))
   /\ NoDup (map fst (fst (mtab (S k) c g M))).
 Proof.
-  intros Hwf Hnf Ht. destruct (wf_graph_facts g Hwf) as (ND & Hs & HwfM).
+  intros Hwf Ht. destruct (wf_graph_facts g Hwf) as (ND & Hs & HwfM). pose proof (wf_graph_nature g Hwf) as Hn.
   pose proof (topo_length g o Ht) as Hlen.
   pose proof Ht as Ht'. apply topo_b_facts in Ht' as (_ & _ & _ & TP).
   induction k as [k IH] using lt_wf_ind. intros l1 n l2 M Hl Eo Ef.
@@ -814,10 +841,10 @@ Proof.
   destruct (HwfM M HM) as (Hacc & NDa & Fall & Hnd).
   assert (Hk : k <= length g) by (rewrite <- Hlen, Eo, app_length, Hl; lia).
   assert (Eimp : imports g M (accessible_n k c g) = imports g M (accessible_n (length g) c g)).
-  { rewrite <- Hl. symmetry. apply (imports_settled c g o Ht Hs l1 n l2 M Eo Ef). now rewrite Hl. }
+  { rewrite <- Hl. symmetry. apply (imports_settled c g o Ht Hs Hn l1 n l2 M Eo Ef). now rewrite Hl. }
   simpl mtab. simpl accessible_n.
   apply mstep_spec; auto.
-  - now apply (nature_free_facts g Hnf M HM).
+  - now apply (nature_legal_facts g Hn M HM).
   - intros u T Hu EfT.
     destruct (target_in_deps g M u T (no_self_use_M g M Hs HM) Hu EfT) as [HT Hd].
     destruct (TP l1 n l2 Eo) as (M' & Ef' & Hdeps). assert (M' = M) by congruence. subst M'.
@@ -826,40 +853,40 @@ Proof.
     assert (La : S (length a) <= k) by (rewrite <- Hl, El1, app_length; simpl; lia).
     pose proof (find_module_nodup g T ND HT) as EfT'.
     rewrite (mtab_stable c g o Ht Hs a (m_name T) _ T Eo' EfT' k La).
-    rewrite (accessible_n_stable c g o Ht Hs a (m_name T) _ T Eo' EfT' k La).
+    rewrite (accessible_n_stable c g o Ht Hs Hn a (m_name T) _ T Eo' EfT' k La).
     destruct (IH (length a) La a (m_name T) _ T eq_refl Eo' EfT') as (D1 & _ & N1). auto.
   - rewrite Eimp. eapply functional_incl; [|exact Fall]. intros x Hx. now apply (scope_in_scope_all c).
   - rewrite Eimp. apply Hnd.
 Qed.
 
 Lemma mtab_final_spec c g o :
-  wf_graph g = true -> nature_free g = true -> topo_b g o = true ->
+  wf_graph g = true -> topo_b g o = true ->
   forall M, In M g ->
   denotes (fst (mtab (length g) c g M)) (accessible c g M)
   /\ denotes (snd (mtab (length g) c g M)) (scope c g M)
   /\ NoDup (map fst (fst (mtab (length g) c g M))).
 Proof.
-  intros Hwf Hnf Ht M HM. destruct (wf_graph_facts g Hwf) as (ND & Hs & _).
+  intros Hwf Ht M HM. destruct (wf_graph_facts g Hwf) as (ND & Hs & _). pose proof (wf_graph_nature g Hwf) as Hn.
   pose proof (topo_length g o Ht) as Hlen.
   pose proof Ht as Ht'. apply topo_b_facts in Ht' as (_ & _ & Sset & _).
   assert (Hin : In (m_name M) o) by (apply Sset; now apply in_map).
   apply in_split in Hin as (l1 & l2 & Eo).
   pose proof (find_module_nodup g M ND HM) as Ef.
   assert (Hl : S (length l1) <= length g) by (rewrite <- Hlen, Eo, app_length; simpl; lia).
-  destruct (mtab_spec c g o Hwf Hnf Ht (length l1) l1 (m_name M) l2 M eq_refl Eo Ef) as (D1 & D2 & N1).
+  destruct (mtab_spec c g o Hwf Ht (length l1) l1 (m_name M) l2 M eq_refl Eo Ef) as (D1 & D2 & N1).
   rewrite (mtab_stable c g o Ht Hs l1 (m_name M) l2 M Eo Ef (length g) Hl).
   unfold accessible, scope.
-  rewrite (accessible_n_stable c g o Ht Hs l1 (m_name M) l2 M Eo Ef (length g) Hl).
-  rewrite (imports_settled c g o Ht Hs l1 (m_name M) l2 M Eo Ef (length g)) by lia.
+  rewrite (accessible_n_stable c g o Ht Hs Hn l1 (m_name M) l2 M Eo Ef (length g) Hl).
+  rewrite (imports_settled c g o Ht Hs Hn l1 (m_name M) l2 M Eo Ef (length g)) by lia.
   auto.
 Qed.
 
-Theorem partial_correct g o :
-  wf_graph g = true -> nature_free g = true -> topo_b g o = true ->
+Theorem full_correct g o :
+  wf_graph g = true -> topo_b g o = true ->
   forall c M, In M g -> tables_ok c g (correlate_all c g o) M.
 Proof.
-  intros Hwf Hnf Ht c M HM. destruct (wf_graph_facts g Hwf) as (ND & Hs & _).
-  destruct (mtab_final_spec c g o Hwf Hnf Ht M HM) as (D1 & D2 & _).
+  intros Hwf Ht c M HM. destruct (wf_graph_facts g Hwf) as (ND & Hs & _).
+  destruct (mtab_final_spec c g o Hwf Ht M HM) as (D1 & D2 & _).
   unfold tables_ok. rewrite (correlate_all_mtab c g o Ht Hs M HM). split; assumption.
 Qed.
 
@@ -874,12 +901,12 @@ Proof.
 Qed.
 
 Theorem nested_correct c g o :
-  wf_graph g = true -> nature_free g = true -> topo_b g o = true ->
+  wf_graph g = true -> topo_b g o = true ->
   forall M S, In M g -> In S (m_nested M) ->
   denotes (nested_imports_model c g o M S) (nested_imports c g M S).
 Proof.
-  intros Hwf Hnf Ht M S HM HS. destruct (wf_graph_facts g Hwf) as (ND & Hs & _).
-  destruct (nature_free_facts g Hnf M HM) as [_ HnS]. specialize (HnS S HS).
+  intros Hwf Ht M S HM HS. destruct (wf_graph_facts g Hwf) as (ND & Hs & _).
+  destruct (nature_legal_facts g (wf_graph_nature g Hwf) M HM) as [_ HnS]. specialize (HnS S HS).
   destruct (wf_graph_nested g M S Hwf HM HS) as [Fn Hnd].
   pose proof Ht as Ht'. apply topo_b_facts in Ht' as (_ & NDo & Sset & TP).
   assert (Hin : In (m_name M) o) by (apply Sset; now apply in_map).
@@ -890,6 +917,9 @@ Proof.
   assert (F0 : functional (nested_imports c g M S)).
   { eapply functional_incl; [|exact Fn]. intros x Hx. apply in_flat_map. exists c. split; auto.
     destruct c; simpl; auto. }
+  assert (Eni : nested_imports c g M S = imports_of g (as_module M S) (accessible c g) (s_uses S)).
+  { unfold nested_imports. rewrite (imports_is _ _ _ HnS). reflexivity. }
+  pose proof (Hnd c) as Hndc. rewrite Eni in F0, Hndc |- *.
   pose proof (fold_use_step g (as_module M S) (st_tabs (correlate_all c g l1)) (accessible c g)
                 (eq_refl : forallb _ (m_access (as_module M S)) = true) (NoDup_nil _) (s_uses S)) as Hf.
   destruct (Hf (fun u Hu => Hu)) with (pub := @nil (str * ent)) (all := @nil (str * ent))
@@ -901,30 +931,30 @@ Proof.
     apply Hdeps in Hd. unfold st_tabs.
     rewrite (correlate_prefix c g o Ht Hs l1 (m_name M :: l2) Eo T HT).
     apply str_in_In in Hd. rewrite Hd.
-    destruct (mtab_final_spec c g o Hwf Hnf Ht T HT) as (D1 & _ & N1). auto.
+    destruct (mtab_final_spec c g o Hwf Ht T HT) as (D1 & _ & N1). auto.
   - constructor.
   - apply denotes_nil.
   - apply denotes_nil.
   - exact F0.
   - simpl. eapply functional_incl; [|exact F0]. intros x Hx. now apply filter_In in Hx as [Hx _].
-  - intros ne Hne. now apply (Hnd c).
+  - intros ne Hne. now apply Hndc.
   - exact D.
 Qed.
 
 (* the fuel of the Spec is enough: more fuel changes nothing on an acyclic graph *)
 Theorem accessible_fuel_enough c g o :
-  topo_b g o = true -> no_self_use g = true ->
+  topo_b g o = true -> no_self_use g = true -> nature_legal g = true ->
   forall M, In M g -> forall f, length g <= f -> accessible_n f c g M = accessible c g M.
 Proof.
-  intros Ht Hs M HM f Hf. pose proof (topo_length g o Ht) as Hlen.
+  intros Ht Hs Hn M HM f Hf. pose proof (topo_length g o Ht) as Hlen.
   pose proof Ht as Ht'. apply topo_b_facts in Ht' as (ND & _ & Sset & _).
   assert (Hin : In (m_name M) o) by (apply Sset; now apply in_map).
   apply in_split in Hin as (l1 & l2 & Eo).
   pose proof (find_module_nodup g M ND HM) as Ef.
   assert (Hl : S (length l1) <= length g) by (rewrite <- Hlen, Eo, app_length; simpl; lia).
   unfold accessible.
-  rewrite (accessible_n_stable c g o Ht Hs l1 (m_name M) l2 M Eo Ef f) by lia.
-  now rewrite (accessible_n_stable c g o Ht Hs l1 (m_name M) l2 M Eo Ef (length g) Hl).
+  rewrite (accessible_n_stable c g o Ht Hs Hn l1 (m_name M) l2 M Eo Ef f) by lia.
+  now rewrite (accessible_n_stable c g o Ht Hs Hn l1 (m_name M) l2 M Eo Ef (length g) Hl).
 Qed.
 
 (* ================================================================== 4. private entities are never imported *)
@@ -978,7 +1008,7 @@ Proof.
   revert H0 Hp. generalize (own_all c M). revert pub0.
   induction (m_uses M) as [|u us IH]; intros pub0 all0 H0 Hp; simpl; [auto|].
   match goal with |- context [fold_left _ us ?x] => rewrite (surjective_pairing x) end.
-  apply IH; unfold use_step; destruct (find_module g (u_target u)) as [T|]; simpl; auto.
+  apply IH; unfold use_step; destruct (used_module g M u) as [T|]; simpl; auto.
   - intros k e H. apply In_update in H as [H|H]; [|now apply (H0 k e)].
     apply used_entities_from in H as [k' H]. left. now apply (Hh T k' e).
   - intros k e H. apply In_update in H as [H|H]; [|now apply (Hp k e)].
@@ -1194,12 +1224,78 @@ Example fixed_only_dup :
   assoc_get (s "bar") (snd (tab_of w_only_dup [s "ma"; s "mb"] 1 CVar)) = Some (s "ma", s "foo").
 Proof. repeat split; vm_compute; reflexivity. Qed.
 
+(* ---- which module a USE statement is matched with *)
+Lemma first_match_app l1 l2 n :
+  first_match (l1 ++ l2) n = match first_match l1 n with Some x => Some x | None => first_match l2 n end.
+Proof. induction l1 as [|x l1 IH]; simpl; auto. destruct (str_eqb (cand_name x) n); auto. Qed.
+Lemma first_match_mods g n :
+  first_match (map CMod g) n = match find_module g n with Some M => Some (CMod M) | None => None end.
+Proof. induction g as [|M g IH]; simpl; auto. destruct (str_eqb (m_name M) n); auto. Qed.
+Lemma first_match_exts ext n : first_match (map CExt ext) n = if str_in n ext then Some (CExt n) else None.
+Proof.
+  induction ext as [|x ext IH]; simpl; auto. destruct (str_eqb x n) eqn:E.
+  - apply str_eqb_eq in E. subst. now rewrite str_eqb_refl.
+  - rewrite IH. assert (str_eqb n x = false).
+    { apply str_eqb_neq. apply str_eqb_neq in E. congruence. }
+    now rewrite H.
+Qed.
+(* find_used_modules: a project module of the USEd name is found whatever link objects
+   (intrinsic modules, extra_mods) bear the same name; a link object only when no project module
+   has the name *)
+Theorem find_used_spec g ext n :
+  find_used g ext n = match find_module g n with
+                      | Some M => Some (CMod M)
+                      | None => if str_in n ext then Some (CExt n) else None
+                      end.
+Proof.
+  unfold find_used, chain. rewrite first_match_app, first_match_mods, first_match_exts.
+  destruct (find_module g n); reflexivity.
+Qed.
+
+Lemma find_used_in_spec g ext n :
+  find_used_in g ext true n = (if str_in n ext then Some (CExt n) else None)
+  /\ find_used_in g ext false n = find_used g ext n.
+Proof. unfold find_used_in. split; [apply first_match_exts | reflexivity]. Qed.
+
+(* the former witness of intrinsic-nature-ignored: module iso_fortran_env of the project (integer ::
+   foo); mb: use, intrinsic :: iso_fortran_env designates the intrinsic module and gets nothing of
+   the project's; mc: use iso_fortran_env (no module nature) gets the project's foo *)
+Definition w_nature : graph :=
+  [mkM "iso_fortran_env" Public [mkD "foo" KVar Public] [] [];
+   mkM "mb" Public [] [] [mkUi "iso_fortran_env" None []];
+   mkM "mc" Public [] [] [mkU "iso_fortran_env" None []]].
+Example fixed_nature :
+  wf_graph w_nature = true /\ toposort w_nature = Some [s "iso_fortran_env"; s "mb"; s "mc"] /\
+  deps w_nature (nth 1 w_nature w_ma) = [] /\
+  snd (tab_of w_nature [s "iso_fortran_env"; s "mb"; s "mc"] 1 CVar) = [] /\
+  assoc_get (s "foo") (snd (tab_of w_nature [s "iso_fortran_env"; s "mb"; s "mc"] 2 CVar)) = Some (s "iso_fortran_env", s "foo").
+Proof. repeat split; vm_compute; reflexivity. Qed.
+(* project modules named like an intrinsic module and like an extra_mods entry, used without a
+   module nature and with NON_INTRINSIC (spelled like a statement without nature in the model),
+   re-exported through mb: the project's modules are found and their entities arrive in mc *)
+Definition ex_special : graph :=
+  [mkM "mpi" Public [mkD "comm" KVar Public; mkD "mpi_send" KProc Public] [] [];
+   mkM "extlib" Public [mkD "thing" KType Public] [] [];
+   mkM "mb" Public [] [] [mkU "mpi" None []; mkU "extlib" (Some [(s "tl", s "thing")]) []; mkUi "iso_c_binding" None []];
+   mkM "mc" Public [] [] [mkU "mb" None []]].
+Definition ex_ext : list str := map s ["iso_fortran_env"; "iso_c_binding"; "mpi"; "mpi_f08"; "extlib"]%string.
+Example ex_special_facts :
+  wf_graph ex_special = true /\  toposort ex_special = Some [s "mpi"; s "extlib"; s "mb"; s "mc"] /\
+  find_used ex_special ex_ext (s "mpi") = Some (CMod (nth 0 ex_special w_ma)) /\
+  find_used ex_special ex_ext (s "extlib") = Some (CMod (nth 1 ex_special w_ma)) /\
+  find_used ex_special ex_ext (s "iso_c_binding") = Some (CExt (s "iso_c_binding")) /\
+  find_used ex_special ex_ext (s "nosuch") = None /\
+  assoc_get (s "comm") (snd (tab_of ex_special [s "mpi"; s "extlib"; s "mb"; s "mc"] 3 CVar)) = Some (s "mpi", s "comm") /\
+  assoc_get (s "mpi_send") (snd (tab_of ex_special [s "mpi"; s "extlib"; s "mb"; s "mc"] 3 CProc)) = Some (s "mpi", s "mpi_send") /\
+  assoc_get (s "tl") (snd (tab_of ex_special [s "mpi"; s "extlib"; s "mb"; s "mc"] 3 CType)) = Some (s "extlib", s "thing").
+Proof. repeat split; vm_compute; reflexivity. Qed.
+
 (* a diamond of re-export with ONLY, renames, a default-private module and an explicit PUBLIC *)
 Definition ex_g : graph :=
   [w_ma;
    mkM "mb" Private [mkD "vb1" KVar Public] [(s "tl", true)]
        [mkU "ma" (Some [(s "foo", s "foo"); (s "tl", s "ta1")]) []];
-   mkM "mc" Public [mkD "pc1" KProc Public] [] [mkU "ma" None []; mkU "iso_fortran_env" None []];
+   mkM "mc" Public [mkD "pc1" KProc Public] [] [mkU "ma" None []; mkUi "iso_fortran_env" None []];
    mkM "md" Public [mkD "vd1" KVar Private] []
        [mkU "mb" None []; mkU "mc" (Some [(s "pz", s "pa1"); (s "ia1", s "ia1")]) []]].
 Definition ex_o1 := [s "ma"; s "mb"; s "mc"; s "md"].
